@@ -158,6 +158,8 @@ def undo_redo_oracle(e, out, before, after, before_schema):
     kind = classify_restore_failure(out)
     if kind == 'undo-does-not-restore' and only_decoded_errors(d):
       kind = 'undo-does-not-restore:error-cell-decoded'
+    elif kind == 'undo-does-not-restore' and only_trigger_cells_of_readded_rows(e, out, before, u):
+      kind = 'undo-does-not-restore:trigger-rerun-on-readded-row'
     elif kind == 'undo-does-not-restore' and only_formula_cells_differ(e, before, u):
       # schema, row ids and every data cell are restored; only recomputed (formula) cells differ
       kind = 'undo-does-not-restore:formula-cells-only'
@@ -247,6 +249,35 @@ def only_formula_cells_differ(e, a, b):
         if col is None or not col.isFormula:
           return False
   return True
+
+
+def only_trigger_cells_of_readded_rows(e, out, a, b):
+  """Every differing cell sits in a DATA column that carries a (default/trigger) formula, in a row that the bundle
+  removed and the undo re-added (the re-adding BulkAddRecord re-runs the formula over the restored value)."""
+  if set(a) != set(b):
+    return False
+  removed = collections.defaultdict(set)
+  whole = set()
+  for act in G.reprs(out.stored):
+    if act[0] == 'RemoveRecord':
+      removed[act[1]].add(act[2])
+    elif act[0] == 'BulkRemoveRecord':
+      removed[act[1]].update(act[2])
+    elif act[0] == 'RemoveTable':
+      whole.add(act[1])
+  n = 0
+  for t in a:
+    if a[t]['ids'] != b[t]['ids'] or set(a[t]['cols']) != set(b[t]['cols']):
+      return False
+    sch = e.schema.get(t)
+    for c in a[t]['cols']:
+      for rid, x, y in zip(a[t]['ids'], a[t]['cols'][c], b[t]['cols'][c]):
+        if json.dumps(x, sort_keys=True, default=repr) != json.dumps(y, sort_keys=True, default=repr):
+          col = sch.columns.get(c) if sch is not None else None
+          if col is None or col.isFormula or not col.formula or not (t in whole or rid in removed[t]):
+            return False
+          n += 1
+  return n > 0
 
 
 def classify_history_failure(tb):
@@ -517,6 +548,72 @@ def code_of_bundle(ctx, history, bundle):
     return eval_codes(ctx, I, [term])[0]
   except Exception:
     return None
+
+
+FOCUS_DOC = [
+  [['AddTable', 'T', [{'id': 'B', 'type': 'Int', 'isFormula': False, 'formula': ''},
+                      {'id': 'A', 'type': 'Text', 'isFormula': False, 'formula': '"row%s" % $B'},
+                      {'id': 'Tr', 'type': 'Int', 'isFormula': False, 'formula': '$B * 1000'},
+                      {'id': 'F', 'type': 'Int', 'isFormula': True, 'formula': '$B * 2'},
+                      {'id': 'D', 'type': 'Text', 'isFormula': False, 'formula': ''}]]],
+  [['BulkAddRecord', 'T', [None, None, None], {'B': [1, 2, 3], 'D': ['x', 'y', 'z']}]],
+]
+
+
+def focused_search(kinds, prop, limit=4):
+  """After a broken tie: the doc-action kinds of the disagreeing bundle, aimed at each kind of column (default-formula
+  data column A, trigger-formula data column Tr, formula column F, plain data column D) of a small document, alone and
+  after an edit of that column / of what it reads / an added row.  Returns [(kind, what, replay)] for `prop`."""
+  kinds = {k.replace('Bulk', '') for k in kinds}
+  docs = [('default', FOCUS_DOC),
+          ('trigger', FOCUS_DOC + [[['ModifyColumn', 'T', 'Tr', {'recalcWhen': 2}]], [['UpdateRecord', 'T', 1, {'B': 5}]]])]
+  vals = {'A': 'edited', 'Tr': 7, 'F': 7, 'D': 'q', 'B': 9}
+  found = []
+  for dname, hist in docs:
+    for col in ('A', 'Tr', 'F', 'D'):
+      pres = [[], [['UpdateRecord', 'T', 1, {'B': 9}]], [['AddRecord', 'T', None, {'B': 4}]]]
+      if col != 'F':
+        pres.append([['UpdateRecord', 'T', 1, {col: vals[col]}]])
+        pres.append([['AddRecord', 'T', None, {'B': 4, col: vals[col]}]])
+      mains = []
+      if 'RemoveColumn' in kinds:
+        mains.append([['RemoveColumn', 'T', col]])
+      if 'RenameColumn' in kinds:
+        mains.append([['RenameColumn', 'T', col, 'q7']])
+        mains.append([['RenameColumn', 'T', col, 'q7'], ['RemoveColumn', 'T', 'q7']])
+      if 'ModifyColumn' in kinds:
+        mains.append([['ModifyColumn', 'T', col, {'type': 'Text' if col in ('Tr', 'F') else 'Int'}]])
+        mains.append([['ModifyColumn', 'T', col, {'isFormula': col != 'F'}]])
+      if 'RemoveRecord' in kinds:
+        mains.append([['RemoveRecord', 'T', 1]])
+        mains.append([['BulkRemoveRecord', 'T', [1, 3]]])
+      if 'UpdateRecord' in kinds and col != 'F':
+        mains.append([['UpdateRecord', 'T', 2, {col: vals[col]}]])
+      if 'AddRecord' in kinds:
+        mains.append([['AddRecord', 'T', None, {'B': 8}]])
+      if 'RemoveTable' in kinds:
+        mains.append([['RemoveTable', 'T']])
+      if 'RenameTable' in kinds:
+        mains.append([['RenameTable', 'T', 'Zz1']])
+        mains.append([['RenameTable', 'T', 'Zz1'], ['RemoveTable', 'Zz1']])
+      if 'ReplaceTableData' in kinds and col == 'A':
+        for ids in ([1, 2, 3], [1, 2], [2, 5], [5, 6]):
+          mains.append([['ReplaceTableData', 'T', ids, {'B': [10 * i for i in ids]}]])
+          mains.append([['ReplaceTableData', 'T', ids, {}]])
+      for pre in pres:
+        for main in mains:
+          b = pre + main
+          try:
+            issues, _ = check_bundle(build(hist), copy.deepcopy(b))
+          except Exception:
+            continue
+          for p_, kind, what in issues:
+            if p_ == prop and not any(f[0] == kind for f in found):
+              found.append((kind, '[focused search, %s-formula document, column %s] %s' % (dname, col, what),
+                            {'history': hist, 'bundle': b, 'kind': kind}))
+              if len(found) >= limit:
+                return found
+  return found
 
 
 def own_hash():
